@@ -8,6 +8,7 @@ import (
 	"encoding/json"
 	"fmt"
 	"os"
+	"runtime/debug"
 
 	"vmc/mc"
 )
@@ -17,6 +18,7 @@ func main() {
 		fmt.Println("usage: vmc check <property> <tier> | vmc replay <file>")
 		os.Exit(2)
 	}
+	debug.SetGCPercent(400) // the explorers allocate many short-lived objects
 	switch os.Args[1] {
 	case "check":
 		prop, tier := os.Args[2], "quick"
